@@ -736,3 +736,111 @@ Qed.
 Lemma diff_gr_orig_refuted_lemma : exists v1 v2, v1 <> v2 /\ length v1 = length v2 /\
   let n := Z.to_nat (2 * 1) in ad_count 21 (opts0 2) (firstn n v1) (firstn n v2) = 0.
 Proof. exists [1; 2; 3; 4], [1; 2; 3; 5]. split; [discriminate|]. split; reflexivity. Qed.
+
+(* ------------------------------------------------------------------------------------------ *)
+(** * hdp's row walk visits the rows in row-major order *)
+
+Fixpoint enc (dims : list Z) (k : Z) : ostate :=
+  match dims with
+  | [] => []
+  | d :: r => let s := (k / zprod r) mod d in (s, (d - s, d)) :: enc r k
+  end.
+
+Lemma zprod_pos dims : Forall (fun d => 0 < d) dims -> 0 < zprod dims.
+Proof. induction 1; simpl; [lia|]. apply Z.mul_pos_pos; assumption. Qed.
+
+Lemma enc0 dims : Forall (fun d => 0 < d) dims -> enc dims 0 = ostate0 dims.
+Proof.
+  induction 1 as [|d r Hd Hr IH]; [reflexivity|]. simpl. rewrite Z.div_0_l by (pose proof (zprod_pos r Hr); lia).
+  rewrite Z.mod_0_l by lia. rewrite Z.sub_0_r. f_equal. assumption.
+Qed.
+
+Lemma starts_enc dims k : starts (enc dims k) = spec_index dims k.
+Proof. induction dims as [|d r IH]; [reflexivity|]. simpl. f_equal. assumption. Qed.
+
+Lemma div_succ_exact P k : 0 < P -> 0 <= k -> (k + 1) mod P = 0 -> (k + 1) / P = k / P + 1.
+Proof.
+  intros HP Hk E. pose proof (Z.div_mod (k + 1) P ltac:(lia)) as D. rewrite E in D.
+  symmetry. assert (k / P = (k + 1) / P - 1); [|lia].
+  symmetry. apply (Z.div_unique k P ((k + 1) / P - 1) (P - 1)); [lia|]. lia.
+Qed.
+
+Lemma div_succ_inexact P k : 0 < P -> 0 <= k -> (k + 1) mod P <> 0 -> (k + 1) / P = k / P.
+Proof.
+  intros HP Hk E. pose proof (Z.div_mod k P ltac:(lia)) as D. pose proof (Z.mod_pos_bound k P HP) as B.
+  symmetry. apply (Z.div_unique (k + 1) P (k / P) (k mod P + 1)); [|lia].
+  assert (k mod P + 1 <> P); [|lia]. intros C. apply E.
+  replace (k + 1) with (P * (k / P + 1)) by lia. rewrite Z.mul_comm. apply Z.mod_mul. lia.
+Qed.
+
+Lemma mod_mul_zero_iff P d n : 0 < P -> 0 < d -> (n mod (d * P) = 0 <-> n mod P = 0 /\ (n / P) mod d = 0).
+Proof.
+  intros HP Hd. rewrite (Z.mul_comm d P), Z.rem_mul_r by lia.
+  pose proof (Z.mod_pos_bound n P HP). pose proof (Z.mod_pos_bound (n / P) d Hd). split.
+  - intros E. assert (0 <= P * ((n / P) mod d)) by (apply Z.mul_nonneg_nonneg; lia). split; [lia|].
+    assert (P * ((n / P) mod d) = 0) by lia. apply Z.mul_eq_0 in H2. lia.
+  - intros [-> ->]. lia.
+Qed.
+
+Lemma ostep_enc : forall dims k, Forall (fun d => 0 < d) dims -> 0 <= k ->
+  ostep (enc dims k) = (enc dims (k + 1), (k + 1) mod zprod dims =? 0).
+Proof.
+  induction dims as [|d r IH]; intros k Hpos Hk.
+  - simpl. rewrite Z.mod_1_r. reflexivity.
+  - inversion Hpos as [|? ? Hd Hr]; subst. pose proof (zprod_pos r Hr) as HP.
+    cbn [enc ostep]. rewrite (IH k Hr Hk). cbn [zprod].
+    pose proof (Z.mod_pos_bound (k / zprod r) d Hd) as Bs.
+    destruct (Z.eqb_spec ((k + 1) mod zprod r) 0) as [E|E].
+    + rewrite (div_succ_exact _ _ HP Hk E).
+      destruct (Z.ltb_spec 0 (d - (k / zprod r) mod d - 1)) as [L|L].
+      * assert (M : (k / zprod r + 1) mod d = (k / zprod r) mod d + 1).
+        { rewrite Z.add_mod by lia. rewrite (Z.mod_small 1 d) by lia. apply Z.mod_small. lia. }
+        rewrite M. f_equal; [f_equal; f_equal; f_equal; lia|].
+        symmetry. apply Z.eqb_neq. intros C. apply (mod_mul_zero_iff _ _ _ HP Hd) in C. destruct C as [_ C].
+        rewrite (div_succ_exact _ _ HP Hk E), M in C. lia.
+      * assert (M : (k / zprod r + 1) mod d = 0).
+        { pose proof (Z.div_mod (k / zprod r) d ltac:(lia)) as D.
+          replace (k / zprod r + 1) with ((k / zprod r / d + 1) * d) by lia. apply Z.mod_mul. lia. }
+        rewrite M. f_equal; [f_equal; f_equal; f_equal; lia|].
+        symmetry. apply Z.eqb_eq. apply (mod_mul_zero_iff _ _ _ HP Hd). split; [assumption|].
+        rewrite (div_succ_exact _ _ HP Hk E). assumption.
+    + rewrite (div_succ_inexact _ _ HP Hk E). f_equal.
+      symmetry. apply Z.eqb_neq. intros C. apply (mod_mul_zero_iff _ _ _ HP Hd) in C. tauto.
+Qed.
+
+Lemma owalk_enc dims : Forall (fun d => 0 < d) dims ->
+  forall m k, (0 < m)%nat -> Z.of_nat k + Z.of_nat m = zprod dims ->
+  owalk m (enc dims (Z.of_nat k)) = Some (map (fun i => spec_index dims (Z.of_nat i)) (seq k m)).
+Proof.
+  intros Hpos. induction m as [|m IH]; intros k Hm Hsum; [lia|].
+  cbn [owalk]. rewrite (ostep_enc dims (Z.of_nat k) Hpos) by lia.
+  destruct (Z.eqb_spec ((Z.of_nat k + 1) mod zprod dims) 0) as [E|E].
+  - assert (m = O).
+    { destruct m; [reflexivity|]. exfalso. rewrite Z.mod_small in E by lia. lia. }
+    subst m. simpl. rewrite starts_enc. reflexivity.
+  - assert (0 < m)%nat.
+    { destruct m; [|lia]. exfalso. apply E. replace (Z.of_nat k + 1) with (zprod dims) by lia. apply Z.mod_same.
+      pose proof (zprod_pos dims Hpos). lia. }
+    replace (Z.of_nat k + 1) with (Z.of_nat (S k)) by lia.
+    rewrite (IH (S k)) by lia. cbn [seq map]. rewrite starts_enc. reflexivity.
+Qed.
+
+Lemma dump_order_rowmajor_lemma : forall dims, Forall (fun d => 0 < d) dims ->
+  owalk (Z.to_nat (zprod dims)) (ostate0 dims) =
+  Some (map (fun i => spec_index dims (Z.of_nat i)) (seq 0 (Z.to_nat (zprod dims)))).
+Proof.
+  intros dims Hpos. pose proof (zprod_pos dims Hpos). rewrite <- (enc0 dims Hpos).
+  apply (owalk_enc dims Hpos (Z.to_nat (zprod dims)) O); lia.
+Qed.
+
+Lemma spec_offset_index : forall dims k, Forall (fun d => 0 < d) dims ->
+  spec_offset dims (spec_index dims k) = k mod zprod dims.
+Proof.
+  induction dims as [|d r IH]; intros k Hpos; [simpl; rewrite Z.mod_1_r; reflexivity|].
+  inversion Hpos as [|? ? Hd Hr]; subst. pose proof (zprod_pos r Hr).
+  cbn [spec_index spec_offset zprod]. rewrite (IH k Hr). rewrite (Z.mul_comm d), Z.rem_mul_r by lia. lia.
+Qed.
+
+Lemma rowmajor_linear_lemma : forall dims k, Forall (fun d => 0 < d) dims -> 0 <= k < zprod dims ->
+  spec_offset dims (spec_index dims k) = k.
+Proof. intros. rewrite spec_offset_index by assumption. apply Z.mod_small. assumption. Qed.
